@@ -646,6 +646,7 @@ func (w *worker) decide(it item, narrate bool) *outcome {
 	}
 	matched, unmatched := 0, 0
 	useO2 := !f.Extended()
+	o2over := 0
 	cur := ""
 	pan, txt := ev.Guard(func() {
 		for i := 0; i < total; i++ {
@@ -678,16 +679,22 @@ func (w *worker) decide(it item, narrate bool) *outcome {
 			if og != ogb {
 				note(viol, &violOrder, "match-vs-matchstring/"+engine, i, true)
 			}
-			if m, ok := prog.Test(rs); ok {
-				resO2[i] = b2(m)
-				if useO2 {
-					nvotes++
-					if m {
-						ayes++
+			if o2over < 3 {
+				if m, ok := prog.Test(rs); ok {
+					resO2[i] = b2(m)
+					if useO2 {
+						nvotes++
+						if m {
+							ayes++
+						}
+					}
+				} else {
+					o.count("o2_step_budget", 1)
+					if o2over++; o2over == 3 {
+						// deterministic: the budget is a step count, not a clock
+						o.count("patterns_o2_dropped_after_3_budget_overruns", 1)
 					}
 				}
-			} else {
-				o.count("o2_step_budget", 1)
 			}
 			nonUAgrees := false
 			if o3 {
@@ -864,9 +871,18 @@ func run(r *ev.Run, items []item, sets []*subjects, script string) {
 	}
 	r.Set("o3_node_processes", nodes)
 	outs := make([]*outcome, len(items))
+	slow := os.Getenv("VERIF_C08_SLOW") != "" // diagnostics only
+	start := time.Now()
 	ev.Parallel(len(items), W, func(i int) {
 		w := <-pool
+		t0 := time.Now()
+		if slow && i%2000 == 0 {
+			fmt.Fprintf(os.Stderr, "C08 progress: item %d/%d (%s) at %v\n", i, len(items), items[i].origin, time.Since(start))
+		}
 		outs[i] = w.decide(items[i], false)
+		if d := time.Since(t0); slow && d > 2*time.Second {
+			fmt.Fprintf(os.Stderr, "C08 slow pattern (%v, %d subjects): %q counts=%v\n", d, outs[i].subjects, items[i].p, outs[i].counts)
+		}
 		pool <- w
 	})
 	close(pool)
@@ -942,6 +958,6 @@ func Main(args []string) int {
 	r.Assume("O2 = internal/ecmare, a backtracking matcher written from ECMA-262 §22.2 (Unicode mode, no i/m/s flags); patterns it rejects are outside the decided grammar and only checked for panics")
 	r.Assume("O3 = V8 of /usr/bin/node when present; the deciding answer is the one with flag u (the property says Unicode-aware semantics); a pattern must also compile without u; pairs whose answer depends on the flag are tallied")
 	r.Assume("an alarm needs every available oracle to agree against ogen; disagreements among oracles are inconclusive, never a violation")
-	return r.Finish(fmt.Sprintf("patterns: fixed regression list, every pattern of AST size <= 3 over the atom/quantifier/group grammar (exhaustive sub-space), PRNG-sampled sizes 4..5 (thorough) and 6..14, look-around/back-reference/named-group patterns, every `pattern` of the /repo/_testdata corpus; subjects: every string of length <= %d over a %d-symbol alphabet (<= 4 for size<=3 patterns in thorough), length <= 2 over %d symbols, class-boundary sweep, PRNG strings, strings derived from the pattern's AST; distinct key = pattern text; non-trivial = all oracles accept the pattern and at least one subject matches and one does not",
+	return r.Finish(fmt.Sprintf("patterns: fixed regression list, every pattern of AST size <= 3 over the atom/quantifier/group grammar (exhaustive sub-space), PRNG-sampled sizes 4..5 (thorough) and 6..14, look-around/back-reference/named-group patterns, every `pattern` of the /repo/_testdata corpus; subjects: every string of length <= %d over a %d-symbol alphabet (thorough: <= 4 for the patterns of size <= 2 and a quarter of size 3), length <= 2 over %d symbols, class-boundary sweep, PRNG strings, strings derived from the pattern's AST; distinct key = pattern text; non-trivial = all oracles accept the pattern and at least one subject matches and one does not",
 		3, len(coreAlphabet), len(coreAlphabet)+len(extraAlphabet)), r.N(2000, 20000), false)
 }
